@@ -3,7 +3,11 @@ package c02
 
 import (
 	"fmt"
+	"strings"
 	"time"
+
+	"github.com/np-guard/netpol-analyzer/pkg/manifests/parser"
+	"github.com/np-guard/netpol-analyzer/pkg/netpol/eval"
 
 	"verif/checks/c01"
 	"verif/fw"
@@ -93,6 +97,124 @@ func Run(r *fw.Run) {
 	for _, sc := range Scopes(r.Quick()) {
 		fw.Explore(r, sc.Name, sc.Mode, sc.Gen, c01.Eval)
 	}
+	runEngineHistories(r)
+}
+
+// runEngineHistories: the same precedence sentence on an engine that is updated object by object: 3-4 ANPs inserted
+// with InsertObject in every order, optionally one of them deleted again (with an equal copy), then every pod pair is
+// queried with CheckIfAllowed on the cell-boundary ports and compared with the reference on the remaining policies.
+func runEngineHistories(r *fw.Run) {
+	type hcase struct {
+		w     *wm.World // the world after the history (remaining ANPs)
+		order []wm.ANP  // insertion order
+		del   int       // index into order of the ANP deleted afterwards (-1: none)
+		desc  string
+	}
+	slices := []*[]wm.APort{PortAlpha[1], PortAlpha[2], PortAlpha[3], nil}
+	fw.Explore(r, "S-engine-history", fw.Full, func(c *fw.Ctx) hcase {
+		n := 3 + c.Choose(2, "number of ANPs")
+		pat := c.Choose(6, "action/slice pattern")
+		var anps []wm.ANP
+		for i := 0; i < n; i++ {
+			rl := wm.ARule{Action: Actions[(i+pat)%3], Peers: []wm.APeer{{Namespaces: all}}, Ports: slices[(i*(pat%2+1)+pat/2)%4]}
+			// names sort opposite to priorities
+			anps = append(anps, wm.ANP{Name: fmt.Sprintf("p%d", n-i), Prio: 10 * (i + 1), Subject: wm.APeer{Namespaces: all}, Ingress: []wm.ARule{rl}, Egress: []wm.ARule{rl}})
+		}
+		// insertion order: any permutation
+		rest := make([]int, n)
+		for i := range rest {
+			rest[i] = i
+		}
+		var order []wm.ANP
+		var idx []int
+		for len(rest) > 0 {
+			k := c.Choose(len(rest), "next insert")
+			order = append(order, anps[rest[k]])
+			idx = append(idx, rest[k])
+			rest = append(rest[:k], rest[k+1:]...)
+		}
+		del := c.Choose(n+1, "delete afterwards (0 = none)") - 1
+		w := Base()
+		for i, a := range order {
+			if i != del {
+				w.ANPs = append(w.ANPs, a)
+			}
+		}
+		w.BANP = BANPs[1+pat%2]
+		return hcase{w, order, del, fmt.Sprintf("insert priorities %v, delete #%d", idx, del)}
+	}, func(cs hcase, x *fw.Rec) {
+		w := cs.w
+		x.Describe(func() any { return map[string]any{"history": cs.desc, "world_after": w.Brief()} })
+		pe := eval.NewPolicyEngine()
+		pe.VerifCacheDebug(false)
+		base := *w
+		base.ANPs, base.BANP = nil, nil
+		objs, _ := parser.ResourceInfoListToK8sObjectsList(base.Infos(), wm.Quiet(), true)
+		for i := range objs {
+			o := objs[i]
+			var err error
+			switch o.Kind {
+			case parser.Namespace:
+				err = pe.InsertObject(o.Namespace)
+			case parser.Deployment:
+				err = pe.InsertObject(o.Deployment)
+			}
+			if err != nil {
+				x.Fail("harness: cannot populate the engine", "", err.Error())
+				return
+			}
+		}
+		for _, a := range cs.order {
+			a := a
+			if err := pe.InsertObject(a.K8s()); err != nil {
+				x.Fail("engine rejects an AdminNetworkPolicy", "", cs.desc+": "+err.Error())
+				return
+			}
+		}
+		if err := pe.InsertObject(w.BANP.K8sB()); err != nil {
+			x.Fail("engine rejects the BaselineAdminNetworkPolicy", "", err.Error())
+			return
+		}
+		if cs.del >= 0 {
+			d := cs.order[cs.del]
+			if err := pe.DeleteObject(d.K8s()); err != nil {
+				x.Fail("engine fails to delete an AdminNetworkPolicy", "", err.Error())
+				return
+			}
+		}
+		var verdicts strings.Builder
+		cuts := w.PortCuts()
+		for si := range w.WLs {
+			for di := range w.WLs {
+				if si == di {
+					continue
+				}
+				s, d := w.WLs[si].NS+"/"+w.WLs[si].Name+"-1", w.WLs[di].NS+"/"+w.WLs[di].Name+"-1"
+				for _, proto := range []string{"TCP", "UDP"} {
+					for _, port := range cuts {
+						got, err := pe.CheckIfAllowed(s, d, strings.ToLower(proto), fmt.Sprint(port))
+						if err != nil {
+							x.Fail("CheckIfAllowed fails after an update history", "", fmt.Sprintf("%s: %s -> %s %s/%d: %v", cs.desc, s, d, proto, port, err))
+							return
+						}
+						want := w.Allowed(wm.Peer{WL: si}, wm.Peer{WL: di}, proto, port)
+						if got {
+							verdicts.WriteByte('1')
+						} else {
+							verdicts.WriteByte('0')
+						}
+						if got != want {
+							x.Fail(fmt.Sprintf("engine verdict after inserts/deletes differs from the precedence sentence: engine=%v", got), "",
+								fmt.Sprintf("%s: %s -> %s %s/%d: engine=%v reference=%v", cs.desc, s, d, proto, port, got, want))
+							return
+						}
+					}
+				}
+			}
+		}
+		x.Outcome(verdicts.String())
+		x.Nontrivial(cs.desc + w.ANPs[0].String())
+	})
 }
 
 // Scopes returns the ANP/BANP world scopes.
